@@ -438,7 +438,7 @@ func checkC19(c *ctx) {
 				}
 				a := ask(c, sx.L(sx.N(zh.ReqVecFault), sx.N(kind), sc.fields, sx.I(opIdx), sx.I(n)))
 				if _, isErr := sx.IsErr(a); isErr {
-					must(fmt.Errorf("model rejected the fault request"))
+					mustH(fmt.Errorf("model rejected the fault request"))
 				}
 				wantErr := a.L[0].N == 1
 				faiss.Mu.Lock()
